@@ -1,9 +1,9 @@
 (* Property C05 -- branch metadata given to Binary Ninja matches where execution goes.
-   Statements only; proofs are in Proofs/BranchProofs.v.  analyze = Model/Static.v (tied to
+   Statements only; proofs are in Proofs/BranchProofs.v, BranchProofs2.v and CallProofs.v.  analyze = Model/Static.v (tied to
    SC62015.get_instruction_info on every run); execution = Model/Lift.v exec_decoded. *)
 From Coq Require Import ZArith NArith List Bool.
 From BE Require Import Model.TableTypes Gen.Tables Model.Regs Model.Decode Model.IL Model.Lift Model.Static Model.Spec
-  Model.Irq Proofs.ExecProofs Proofs.BranchProofs Proofs.AccessProofs Proofs.IrqProofs Proofs.CallProofs.
+  Model.Irq Proofs.ExecProofs Proofs.BranchProofs Proofs.AccessProofs Proofs.IrqProofs Proofs.CallProofs Proofs.ExecMemProofs Proofs.BranchProofs2.
 Import ListNotations.
 Open Scope Z_scope.
 
@@ -57,6 +57,35 @@ Theorem C05_opcodes_are_the_tables :
     end) jp16_opcodes = true.
 Proof. exact (conj jr_table_check jp16_table_check). Qed.
 Print Assumptions C05_opcodes_are_the_tables.
+
+(* the remaining jump forms.  JPF lmn: reported target = executed target = the 20-bit immediate, for every operand and state.
+   JP r3: the plugin reports an unresolved indirect branch (no target is claimed) and execution loads PC from the register the
+   low three bits of the operand byte select - the whole 20-bit value of X, Y, U, S; for the 8/16-bit registers A, IL, BA, I the
+   value supplies the low bits and the page of the instruction is kept - and nothing else changes; every operand byte is covered.
+   JP (n), no prefix and each of the 15 prefixes: unresolved branch reported; PC := the 3-byte little-endian content of the
+   cell the prefix's mode names, 20 bits kept (the documented effect), nothing else architectural changes *)
+Theorem C05_far_and_indirect_jumps :
+  (forall lo mid hi addr s,
+     analyze (mk_instr 3 [OImm20 lo mid hi] 4) addr = Some {| b_len := 4; b_branches := [(BUncond, Some (Z.of_N (imm20 lo mid hi)))] |} /\
+     exec_decoded (mk_instr 3 [OImm20 lo mid hi] 4) 3 addr s =
+       XOk (setr (setr s gPC (Z.land addr (Z.of_N py_pc_mask))) gPC (Z.of_N (imm20 lo mid hi)))) /\
+  (forall raw addr s, exists k r w, In (k, r, w) jp_regs /\ (raw mod 8 = k)%N /\
+     analyze (mk_instr 17 [OReg3 raw] 2) addr = Some {| b_len := 2; b_branches := [(BUnresolved, None)] |} /\
+     exec_decoded (mk_instr 17 [OReg3 raw] 2) 17 addr s =
+       XOk (setr (setr s gPC (Z.land addr (Z.of_N py_pc_mask))) gPC (jp_r3_target addr s r w))) /\
+  (forall c, In c pre_choices -> forall n, (n < 256)%N -> forall addr s, mem_wf s ->
+     analyze (mk_pre c 16 [OIMem 3 n] 2) addr <> None /\
+     exists s' t, exec_decoded (mk_pre c 16 [OIMem 3 n] 2) (first_byte c 16) addr s = XOk s' /\
+                  spec_exec (mk_pre c 16 [OIMem 3 n] 2) addr s = Some t /\ arch_eq s' t) /\
+  map (fun o => (d_cls (entry_of o), d_ops (entry_of o), d_cond (entry_of o))) [3; 16; 17]%N =
+    [(I_JP_Abs, [PImm20], None); (I_JP_Abs, [PIMem 3], None); (I_JP_Abs, [PReg3], None)].
+Proof.
+  split; [intros; split; [apply jpf_analyze | apply jpf_exec]|].
+  split; [intros raw addr s; destruct (jp_regs_cover raw) as (k & r & w & Hin & Hk); exists k, r, w;
+          split; [exact Hin|split; [exact Hk|split; [exact (jp_r3_analyze raw addr k r w Hin Hk) | exact (jp_r3_exec raw addr s k r w Hin Hk)]]]|].
+  split; [exact jp_imem | exact jump_forms_check].
+Qed.
+Print Assumptions C05_far_and_indirect_jumps.
 
 (* far call: CALLF lmn leaves exactly the 20-bit address of the next instruction, little-endian, in the three bytes below
    the old S, moves S down by three, jumps to lmn and touches no other register or byte - every well-formed state with
